@@ -117,11 +117,20 @@ impl<'a, 'tcx> Cx<'a, 'tcx> {
                         }
                         _ => f.index().to_string(),
                     };
-                    proj.push(J::obj(vec![
+                    let mut fo: Vec<(&str, J)> = vec![
                         ("f", J::Int(f.index() as i128)),
                         ("n", J::Str(name)),
                         ("ty", J::Str(ty_str(fty))),
-                    ]));
+                    ];
+                    // which local ADT (and variant) the field belongs to: lets the rules undo a field rename
+                    if let ty::Adt(adt, _) = pty.ty.kind() {
+                        if adt.did().is_local() {
+                            fo.push(("of", J::Str(path(tcx, adt.did()))));
+                            let v = pty.variant_index.unwrap_or(rustc_abi::FIRST_VARIANT);
+                            fo.push(("ofv", J::Str(adt.variant(v).name.to_string())));
+                        }
+                    }
+                    proj.push(J::obj(fo));
                 }
                 ProjectionElem::Downcast(_, vidx) => {
                     let name = match pty.ty.kind() {
